@@ -42,6 +42,10 @@ var classes = []struct {
 	{"other-domain-user", "bob@other.org", false, true, false},
 	{"unlisted-sub-domain", "fresh%d@sub.example.com", false, false, false},
 	{"look-alike-domain", "fresh%d@notexample.com", false, false, false},
+	// unknown addresses whose local part is an SQL LIKE pattern for, or a case variant of, an existing user's (known<n>@…)
+	{"like-pattern-of-a-user", "kn_wn%d@example.com", false, false, false},
+	{"percent-pattern-of-a-user", "know%%%d@example.com", false, false, false},
+	{"case-variant-of-a-user", "KNOWN%d@example.com", false, false, false},
 }
 
 var spamVariants = []struct {
@@ -205,6 +209,10 @@ func play(rep *hx.Report, w *world.World, o *hx.Opts, c cell, idx int) {
 	addr := cl.addr
 	if strings.Contains(addr, "%d") {
 		addr = fmt.Sprintf(addr, seq)
+	}
+	if strings.HasSuffix(cl.name, "-of-a-user") {
+		// the user the pattern would match exists, in the same domain
+		w.Login(fmt.Sprintf("known%d@example.com", seq)).Close()
 	}
 	if cl.name == "local-part-in-other-domain" {
 		// the same local part exists, but in another domain
@@ -406,6 +414,8 @@ func find(w *world.World, token, folder string) []string {
 		users = append(users, fmt.Sprintf("nobody%s@example.com", strings.TrimPrefix(token, "c17tok")))
 		users = append(users, fmt.Sprintf("fresh%s@sub.example.com", strings.TrimPrefix(token, "c17tok")), fmt.Sprintf("fresh%s@notexample.com", strings.TrimPrefix(token, "c17tok")))
 		users = append(users, fmt.Sprintf("twin%s@example.com", strings.TrimPrefix(token, "c17tok")), fmt.Sprintf("twin%s@other.org", strings.TrimPrefix(token, "c17tok")))
+		k := strings.TrimPrefix(token, "c17tok")
+		users = append(users, "known"+k+"@example.com", "kn_wn"+k+"@example.com", "know%"+k+"@example.com", "KNOWN"+k+"@example.com")
 	}
 	folders := []string{"INBOX", "Spam", "Filed"}
 	if folder != "INBOX" && folder != "Filed" {
